@@ -885,6 +885,38 @@ func c06Run(c *core.Ctx) {
 			st := `{` + hdr(format) + `,"file_declaration":{"envelopes":[` + env + `]},"transform_declarations":{"FINAL_OUTPUT":{"object":{` + strings.Join(outs, ",") + `}}}}`
 			emit(c06Case{Family: fmt.Sprintf("%s|%d columns on a 2-row envelope", format, ncols), Schema: st, Input: []byte(row1 + "\n" + row2 + "\n" + row1 + "\n" + row2 + "\n"), Want: [][]*string{want, want}}, nil, format+"-many-columns")
 		}
+		// rows longer than the reader's buffer, told apart by what they END with (a pattern anchored at the end
+		// of the line, a marker far inside it): the rows of an envelope in both orders, widths around 4096 / 8192
+		for _, width := range []int{40, 4000, 4094, 4097, 4200, 8190, 9000} {
+			for _, order := range []string{"AB", "BA"} {
+				for _, kind := range []string{"anchored-at-the-end", "marker-in-the-tail"} {
+					patA, patB := "#A$", "#B$"
+					rowA := "a" + strings.Repeat("x", width-3) + "#A"
+					rowB := "b" + strings.Repeat("y", width-3) + "#B"
+					if kind == "marker-in-the-tail" {
+						patA, patB = "x#A#", "y#B#"
+						rowA = "a" + strings.Repeat("x", width-6) + "#A#zz"
+						rowB = "b" + strings.Repeat("y", width-6) + "#B#zz"
+					}
+					selA, selB := `,"line_pattern":"`+patA+`"`, `,"line_pattern":"`+patB+`"`
+					cols := `{"name":"ka","start_pos":1,"length":3` + selA + `},{"name":"kb","start_pos":1,"length":3` + selB + `},{"name":"ta","start_pos":` + strconv.Itoa(width-3) + `,"length":4` + selA + `}`
+					env := `{"by_rows":2,"columns":[` + cols + `]}`
+					if format == "fixedlength2" {
+						env = `{"rows":2,"columns":[` + cols + `]}`
+					}
+					st := `{` + hdr(format) + `,"file_declaration":{"envelopes":[` + env + `]},"transform_declarations":{"FINAL_OUTPUT":{"object":{` +
+						`"c1":{"xpath":"ka","no_trim":true,"keep_empty_or_null":true},"c2":{"xpath":"kb","no_trim":true,"keep_empty_or_null":true},"c3":{"xpath":"ta","no_trim":true,"keep_empty_or_null":true}}}}}`
+					r1, r2 := rowA, rowB
+					if order == "BA" {
+						r1, r2 = rowB, rowA
+					}
+					tail := []rune(rowA)
+					want := []*string{sp(rowA[:3]), sp(rowB[:3]), sp(string(tail[width-4:]))}
+					emit(c06Case{Family: fmt.Sprintf("%s|rows of %d bytes told apart by their ends (%s)", format, width, kind), Schema: st,
+						Input: []byte(r1 + "\n" + r2 + "\n" + r2 + "\n" + r1 + "\n"), Want: [][]*string{want, want}}, nil, format+"-long-rows-"+kind)
+				}
+			}
+		}
 		// two columns on DIFFERENT rows of a multi-row envelope whose rows have multi-byte runes at different
 		// places: every ordered pair of rows x start 1/3/5 x length 2/4 for both columns (a position counted in
 		// one row means nothing in another)
